@@ -168,6 +168,20 @@ func c18Case(c *Ctx) {
 		defer knobs(1+c.Case%3, 1)()
 		c.Count("batches_with_lowered_knobs", 1)
 	}
+	if c.Case%3 == 1 { // a hostile process environment: locale names, debugging switches, and every variable the library was seen to read
+		envs := envNames()
+		defer envRestore(envs)()
+		for i, n := range envs {
+			os.Setenv(n, envValues[(c.Case+i)%len(envValues)])
+		}
+		c.Count("batches_under_a_hostile_environment", 1)
+		if d, note := envConsulted(); note == "ok" {
+			c.Count("environment_probe_ok", 1)
+			c.Max("environment_variables_the_library_was_seen_to_read", int64(len(d)))
+		} else {
+			c.Count("environment_probe_unavailable", 1)
+		}
+	}
 	cp, err := startCapture(c.Dir, c.Case)
 	if err != nil {
 		c.Inconclusive("cannot redirect fd 1/2: " + err.Error())
